@@ -11,7 +11,7 @@ def run_keys_check(pid, tier, seed, wd):
     thorough = tier == "thorough"
     alpha, l2, l3 = ("adv9", 2, 1) if not thorough else ("adv9", 2, 2)
     if thorough:
-        alpha_mc, l2, l3 = "adv7", 2, 2
+        alpha_mc, l2, l3 = "adv9", 2, 2
     else:
         alpha_mc = "adv7"
     info, violations, drift = {}, [], []
@@ -41,7 +41,7 @@ def run_keys_check(pid, tier, seed, wd):
         if len(pl) != sizes.get(s):
             raise ToolError("domain mismatch for %s: TLC %s vs generator %d" % (s, sizes.get(s), len(pl)))
     rng = random.Random(seed)
-    R = random_tuples(rng, 1500 if thorough else 250)
+    R = random_tuples(rng, 20000 if thorough else 250)
     groups = []
     for flav in ("sync", "async"):
         for sig, pl in D.items():
